@@ -61,6 +61,8 @@ Boot(c, v, inp, ambient) ==
 ObsNames(c) == {c.obs[i] : i \in 1..Len(c.obs)}
 Result(c, mm) == [n \in ObsNames(c) |-> ValOf(c.vt[n], mm.mem)] @@ [n \in {"X", "Y"} |-> IF n = "X" THEN mm.X ELSE mm.Y]
                @@ ("_io" :> mm.io)
+               \* where the case asks for it (variants = one source at several optimisation levels): the accesses made by protected instructions
+               @@ ("_xio" :> IF "xio" \in DOMAIN c /\ c.xio THEN mm.xio ELSE <<>>)
 
 \* staged choice: the case is chosen first (phase 0), then input, ambient configuration and
 \* variant(s), so that TLC's workers share the construction of the initial machines
